@@ -1428,9 +1428,35 @@ func c19(c *Ctx) {
 			r.Unresolved("handleDatagram")
 			return
 		}
+		srcBlocks := map[*ssa.BasicBlock]bool{}
+		var srcStores []*ssa.Store
 		for _, st := range fieldStores(hd, "Event", "Source") {
 			r.Check("parser:event-source-is-sender", paramIndex(hd, st.Val) == 4, st.Pos(), "event.Source <- ip")
+			if paramIndex(hd, st.Val) == 4 {
+				srcBlocks[st.Block()] = true
+				srcStores = append(srcStores, st)
+			}
 		}
+		// ... for every event: each path to the event's dispatch passes that store (a client-supplied h: field
+		// never stands in for the sender's address)
+		nDisp := 0
+		for _, cl := range callsIn(hd) {
+			if !cl.Common().IsInvoke() || cl.Common().Method.Name() != "DispatchEvent" {
+				continue
+			}
+			nDisp++
+			ok := false
+			for _, st := range srcStores {
+				if st.Block() == cl.Block() && instrDominates(st, cl) {
+					ok = true
+				}
+			}
+			if !ok && len(srcBlocks) > 0 {
+				ok = !srcBlocks[cl.Block()] && !pathsAvoiding(hd.Blocks[0], cl.Block(), func(b *ssa.BasicBlock) bool { return srcBlocks[b] })
+			}
+			r.Check("parser:event-source-always-set", ok, cl.Pos(), "every path to DispatchEvent passes event.Source <- ip")
+		}
+		r.Check("parser:event-dispatch-site", nDisp >= 1, hd.Pos(), fmt.Sprintf("%d DispatchEvent calls in handleDatagram", nDisp))
 		for _, st := range fieldStores(hd, "Event", "DateHappened") {
 			cs := strings.Join(condStrings(st.Block()), " && ")
 			r.Check("parser:event-time-only-when-absent", cmpHolds(factsAt(st.Block()), func(v ssa.Value) bool { return strings.HasSuffix(pathOf(v), ".DateHappened") }, func(v ssa.Value) bool { n, ok := constInt(v); return ok && n == 0 }, token.EQL) && strings.Contains(exprString(st.Val, 0), "time.Now"), st.Pos(), "DateHappened <- now only when the line carried none: "+cs)
